@@ -33,6 +33,7 @@ from frappy.errors import ConfigError, ProgrammingError, \
 from frappy.lib import clamp, generalConfig
 from frappy.lib.enum import Enum
 from frappy.properties import HasProperties, Property
+from collections.abc import Mapping
 
 generalConfig.set_default('lazy_number_validation', False)
 
@@ -756,6 +757,12 @@ Stub.fix_datatypes()
 #
 
 
+def check_sequence(value, typename):
+    """a string, bytes or a mapping is iterable, but not a sequence of elements"""
+    if isinstance(value, (str, bytes, bytearray, Mapping)):
+        raise WrongTypeError(f'{type(value).__name__} can not be converted to {typename} DataType!')
+
+
 class ArrayOf(DataType):
     """data structure with fields of homogeneous type
 
@@ -812,6 +819,7 @@ class ArrayOf(DataType):
         return f'ArrayOf({repr(self.members)}, {self.minlen}, {self.maxlen})'
 
     def check_type(self, value):
+        check_sequence(value, 'ArrayOf')
         try:
             # check number of elements
             if self.minlen is not None and len(value) < self.minlen:
@@ -849,7 +857,11 @@ class ArrayOf(DataType):
 
     def import_value(self, value):
         """returns a python object from serialisation"""
-        return tuple(self.members.import_value(elem) for elem in value)
+        check_sequence(value, 'ArrayOf')
+        try:
+            return tuple(self.members.import_value(elem) for elem in value)
+        except TypeError:  # value is not iterable
+            raise WrongTypeError(f'{type(value).__name__} can not be converted to ArrayOf DataType!') from None
 
     def format_value(self, value, unit=True):
         innerunit = False
@@ -906,6 +918,7 @@ class TupleOf(DataType):
         return f"TupleOf({', '.join([repr(st) for st in self.members])})"
 
     def check_type(self, value):
+        check_sequence(value, 'TupleOf')
         try:
             if len(value) == len(self.members):
                 return
@@ -939,6 +952,7 @@ class TupleOf(DataType):
 
     def import_value(self, value):
         """returns a python object from serialisation"""
+        self.check_type(value)  # zip would silently drop surplus elements
         return tuple(sub.import_value(elem) for sub, elem in zip(self.members, value))
 
     def format_value(self, value, unit=True):
